@@ -99,6 +99,11 @@ func (h *poolHarness) start(id int64, kind int64, keys []string, call gx.Call) *
 			data[k] = v
 		}
 	}
+	if kind == 12 {
+		// entries the pool has to skip: a nil value and an empty key
+		data["nilv"] = nil
+		data[""] = &Payload{Id: id}
+	}
 	if kind == 11 {
 		// a request without any injected data (nil map): its rules fail on the missing names,
 		// the instance must still come back
@@ -111,6 +116,10 @@ func (h *poolHarness) start(id int64, kind int64, keys []string, call gx.Call) *
 		defer close(r.done)
 		r.res = gx.OnPool(h.pool, call, data, &engine.Stag{})
 		r.resCopy = sortedMap(r.res.Map)
+		// the client recycles its data map as soon as the call has returned
+		for k := range data {
+			delete(data, k)
+		}
 	}()
 	return r
 }
